@@ -271,7 +271,10 @@ class Materialised:
                 return
             self._declared.add(key)
             # the body of a string-valued alias is evaluated lazily: references inside stay bare
-            inner = self.expr(spec["a"][0], at_mod=spec["mod"], quote_refs=(k != "stralias"))
+            a0 = spec["a"][0]
+            # a wrapper directly over an already declared class names the class itself, not a string
+            declared = a0["k"] == "ref" and (a0["mod"], a0["name"]) in self.classes
+            inner = self.expr(a0, at_mod=spec["mod"], quote_refs=(k != "stralias" and not declared))
             n = spec["name"]
             self.class_specs[key] = spec
             if k == "newtype":
@@ -940,6 +943,7 @@ class Names:
         self.adversarial = adversarial
         self.used = set()
         self.closed = []      # (mod, name) of finished classes
+        self.flavour = {}     # (mod, name) -> flavour of finished classes
         self.generics = []    # finished composite sub-specs (reused by identity)
 
     def fresh(self, prefix):
@@ -1093,7 +1097,14 @@ def specs(draw, names: Names | None = None, *, max_depth=3, hashable=False, key=
             ms.insert(draw(st.integers(0, len(ms))), dict(NONE))
         return {"k": "union", "a": ms, "sp": draw(st.sampled_from(["Union", "pipe"]))}
     if k in ("newtype", "alias", "stralias"):
-        inner = draw(sub(hashable=hashable, recursion=False))
+        if names.adversarial and recursion and names.closed and not hashable and not key and draw(st.integers(0, 3)) == 0:
+            # a named wrapper over a class that is also reachable bare on another path (possibly from another module)
+            m_, n_ = draw(st.sampled_from(names.closed))
+            inner = {"k": "ref", "name": n_, "mod": m_}
+            if k == "newtype" and names.flavour.get((m_, n_), "").startswith("typeddict"):
+                k = "alias"
+        else:
+            inner = draw(sub(hashable=hashable, recursion=False))
         if k == "newtype" and strip(inner)["k"] in ("optional", "union", "literal", "typeddict"):
             k = "alias"
         if k == "newtype" and strip(inner)["k"] == "class" and strip(inner)["flavour"].startswith("typeddict"):
@@ -1147,6 +1158,7 @@ def class_specs(draw, names, *, max_depth, hashable, open_classes, kw):
         spec["classvars"] = ["cv"]
     if not has_kind(spec, "ref") or True:
         names.closed.append((mod, name))
+        names.flavour[(mod, name)] = fl
     return spec
 
 
